@@ -66,13 +66,15 @@ func (p pl) clone() pl {
 
 // effective quantities of a content (nil content = no power-levels event)
 type eff struct {
-	scalar map[string]int64
-	p      pl
-	none   bool
+	scalar   map[string]int64
+	p        pl
+	none     bool
 	creators map[string]int64 // fixed levels that do not come from the content
 }
 
-func effective(p pl, none bool, creators map[string]int64) eff { return eff{scalarDefaults, p, none, creators} }
+func effective(p pl, none bool, creators map[string]int64) eff {
+	return eff{scalarDefaults, p, none, creators}
+}
 
 func (e eff) sc(k string) int64 {
 	if v, ok := e.p[k]; ok && !e.none {
@@ -149,21 +151,11 @@ func invariant(version string, old, nw eff, sender string, creatorsNamed []strin
 		return out
 	}
 	for _, t := range names("events/") {
-		// the level of an explicitly listed event type, read as the specification's rule reads it (entry vs entry;
-		// a missing entry has no value of its own: its fallback default is covered by the scalar thresholds)
-		ov, oin := old.p["events/"+t]
-		nv, nin := nw.p["events/"+t]
-		if old.none {
-			oin = false
-		}
-		if oin && nin {
-			if s := chk("events."+t, ov, nv, false); s != "" {
-				return s
-			}
-		} else if oin && ov > lv {
-			return fmt.Sprintf("events.%s removed although its value %d is above the sender's level %d", t, ov, lv)
-		} else if nin && nv > lv {
-			return fmt.Sprintf("events.%s added with %d, above the sender's level %d", t, nv, lv)
+		// the threshold of an event type is its entry or, without one, events_default (the library deliberately judges
+		// a missing entry by the default it falls back to: adding "m.x": 0 under events_default 100 LOWERS a threshold
+		// of 100, removing "m.x": 10 under events_default 100 RAISES it to 100)
+		if s := chk("events."+t, old.event(t, false), nw.event(t, false), false); s != "" {
+			return s
 		}
 	}
 	if row.NotificationsChecked {
@@ -192,11 +184,11 @@ func invariant(version string, old, nw eff, sender string, creatorsNamed []strin
 }
 
 type stepCase struct {
-	Version string
-	Sender  string
-	OldNone bool
+	Version  string
+	Sender   string
+	OldNone  bool
 	Old, New pl
-	RawNew  string // overrides New.json() (non-integer levels)
+	RawNew   string // overrides New.json() (non-integer levels)
 }
 
 func creatorsFor(version string) (map[string]int64, []string, string) {
@@ -286,8 +278,8 @@ var keyMenu = []string{"ban", "kick", "invite", "redact", "events_default", "sta
 func main() { harness.Main("C08", "model_checking", run) }
 
 func run(r *harness.Run) {
-	r.Rule("(i) one-step: current content in 7 patterns over 14 keys (every scalar threshold incl. users_default, two events entries, two notification entries, the sender's, another user's and a third user's level) x proposed content = current with every set of <= K keys each moved to every other value of {absent, L-1, L, L+1} x sender in {member at level L, room creator without a power-levels event, v12 creator} x all 16 room versions, plus non-integer spellings; (ii) histories: breadth-first search over accepted power-levels events by three users (creator, moderator, plain user) from the room's initial state with a menu of edits, depth D, canonical state = content. Oracle (not the reference rules): on every ACCEPTED event an invariant on effective levels computed from the two contents - nothing set above the sender's level, nothing above the sender's level changed or removed, no other user at or above the sender changed, no creator named (v12), no non-integer level (v10+); along histories nobody ever exceeds the highest level any acting sender held. Non-trivial = distinct accepted change.")
-	r.Assume("event-type entries are compared entry-against-entry as the specification's rule does; an added or removed entry is judged by its own value")
+	r.Rule("(i) one-step: current content in 8 patterns over 14 keys (every scalar threshold incl. users_default, two events entries, two notification entries, the sender's, another user's and a third user's level) x proposed content = current with every set of <= K keys each moved to every other value of {absent, L-1, L, L+1} x sender in {member at level L, room creator without a power-levels event, v12 creator} x all 16 room versions, plus non-integer spellings; (ii) histories: breadth-first search over accepted power-levels events by three users (creator, moderator, plain user) from the room's initial state with a menu of edits, depth D, canonical state = content. Oracle (not the reference rules): on every ACCEPTED event an invariant on effective levels computed from the two contents - nothing set above the sender's level, nothing above the sender's level changed or removed, no other user at or above the sender changed, no creator named (v12), no non-integer level (v10+); along histories nobody ever exceeds the highest level any acting sender held. Non-trivial = distinct accepted change.")
+	r.Assume("the threshold of an event type without an entry is events_default (the non-state default, as the library reads it); the state_default fallback for state events is not part of the comparison")
 	r.OnReplay("step", func(raw json.RawMessage) error {
 		var c stepCase
 		if err := json.Unmarshal(raw, &c); err != nil {
@@ -317,7 +309,10 @@ func run(r *harness.Run) {
 	mixed2["users_default"], mixed2["users/"+O], mixed2["events/m.room.name"], mixed2["events/m.room.power_levels"] = L+10, 10, 100, 10
 	low := base(-1)
 	low["users/"+S], low["events/m.room.power_levels"], low["state_default"] = 10, 10, L
-	olds := []pl{base(-1), base(L - 1), base(L), base(L + 1), mixed, mixed2, low}
+	// the defaults an absent entry falls back to lie above the sender, who may still send power levels
+	highDefaults := base(-1)
+	highDefaults["events_default"], highDefaults["state_default"], highDefaults["events/m.room.power_levels"], highDefaults["users_default"] = L+1, L+1, L, 0
+	olds := []pl{base(-1), base(L - 1), base(L), base(L + 1), mixed, mixed2, low, highDefaults}
 	type job struct {
 		ver    string
 		sender string
@@ -423,11 +418,11 @@ func run(r *harness.Run) {
 	for _, ver := range []string{"1", "6", "10", "11", "12"} {
 		creators, _, _ := creatorsFor(ver)
 		type node struct {
-			none  bool
-			p     pl
+			none     bool
+			p        pl
 			maxActor int64
-			depth int
-			hist  []string
+			depth    int
+			hist     []string
 		}
 		initCr := map[string]int64{}
 		for k, v := range creators {
